@@ -61,6 +61,14 @@ pub enum Layout {
     Synthetic,
     Twin,
     Exotic,
+    /// a layout file in this process' scratch directory that a check rewrites between two loads (C04)
+    Rewritten,
+}
+
+/// Path of the layout file of `Layout::Rewritten` (per process).
+pub fn rewritten_layout_path() -> &'static str {
+    static P: OnceLock<String> = OnceLock::new();
+    P.get_or_init(|| scratch_root().join("rewritten-layout.json").to_string_lossy().to_string())
 }
 
 impl Layout {
@@ -71,6 +79,7 @@ impl Layout {
             Layout::Synthetic => SYNTHETIC,
             Layout::Twin => TWIN,
             Layout::Exotic => EXOTIC,
+            Layout::Rewritten => rewritten_layout_path(),
         }
     }
     pub fn from_index(i: usize) -> Layout {
@@ -110,6 +119,8 @@ impl Opts {
                 Layout::Twin
             } else if s.contains('X') {
                 Layout::Exotic
+            } else if s.contains('W') {
+                Layout::Rewritten
             } else {
                 Layout::Phonetic
             },
@@ -135,6 +146,7 @@ impl Opts {
             Layout::Synthetic => s.push('S'),
             Layout::Twin => s.push('T'),
             Layout::Exotic => s.push('X'),
+            Layout::Rewritten => s.push('W'),
         }
         for (b, c) in [
             (self.english, 'e'),
@@ -467,6 +479,10 @@ impl KeyTable {
     pub fn has_char(&self, c: char) -> bool {
         self.by_char.contains_key(&c)
     }
+    /// Number-pad key code producing this ASCII character, if the header publishes one (digits, . + - * / =).
+    pub fn numpad_code_for(&self, c: char) -> Option<u16> {
+        self.keys.iter().find(|k| k.numpad && k.ascii == Some(c)).map(|k| k.code)
+    }
     pub fn len(&self) -> usize {
         self.keys.len()
     }
@@ -783,6 +799,16 @@ impl Ctx {
         }
         self.opts = opts;
         Ok(())
+    }
+    /// Type ASCII text with selection byte 0, pressing the NUMBER-PAD key for every character that has one (in the phonetic
+    /// method a character is a character, whichever key produced it).
+    pub fn type_text_numpad(&self, text: &str) -> Result<Option<Rendered>, PanicInfo> {
+        let mut last = None;
+        for c in text.chars() {
+            let code = keys().numpad_code_for(c).unwrap_or_else(|| keys().code_for(c));
+            last = Some(self.key(code, 0, 0)?);
+        }
+        Ok(last)
     }
     /// Type ASCII text with selection byte 0; returns the last rendering.
     pub fn type_text(&self, text: &str) -> Result<Option<Rendered>, PanicInfo> {
